@@ -56,6 +56,14 @@ def argmaxIdx (l : List α) (dflt : α) : Nat × α :=
   | a :: l => argmaxIdxFrom l 1 0 a
 end argmin
 
+/-- `mapM` for `Option`, written out (proof-friendly) -/
+def mapOpt {β γ : Type} (f : β → Option γ) : List β → Option (List γ)
+  | [] => some []
+  | b :: l =>
+    match f b, mapOpt f l with
+    | some c, some cs => some (c :: cs)
+    | _, _ => none
+
 def sumL [Add α] [Zero α] : List α → α
   | [] => 0
   | a :: l => a + sumL l
